@@ -16,7 +16,9 @@ TStep ==
          /\ AfterNew(e.lhs, e.rhs, e.cnew)
          /\ AfterContext(e.lhs, e.rhs, e.cnew, e.cctx, e.n)
          /\ AfterUnify(e.lhs, e.rhs, e.cnew, e.cuni, e.n)
-         /\ ScriptOK(e.enew, e.lhs, e.rhs)           \* Edits holds the full script ...
+         \* Edits holds the full script ...  (minimality needs a quadratic LCS table and is
+         \* checked for inputs up to 40 000 cells; beyond that validity and canonical form)
+         /\ (IF e.big = 1 THEN ScriptValid(e.enew, e.lhs, e.rhs) ELSE ScriptOK(e.enew, e.lhs, e.rhs))
          /\ e.ectx = e.enew /\ e.euni = e.enew        \* ... and is not disturbed
 
 TSkip == l <= N /\ ~ENABLED TStep /\ Reject(l) /\ l' = l + 1
